@@ -81,6 +81,12 @@ Definition flush_lines (write_ts : bool) (its : list item) : list str :=
 Definition mark_saved (its : list item) : list item :=
   map (fun it => {| id := id it; cmd := cmd it; ts := ts it; dirty := false |}) its.
 
+(** [History::flush] with append = false, unsaved_items_only = false (`history -w`): every item
+    is written, the file is truncated first, and no dirty flag changes. *)
+Definition mark_dirty (its : list item) : list item :=
+  map (fun it => {| id := id it; cmd := cmd it; ts := ts it; dirty := true |}) its.
+Definition write_lines (write_ts : bool) (its : list item) : list str := flush_lines write_ts (mark_dirty its).
+
 Definition hflush (h : hist) : hist := {| items := mark_saved (items h); next_id := next_id h |}.
 
 (** The world: one history file shared by any number of live sessions. *)
@@ -88,10 +94,13 @@ Inductive op :=
 | Add (sid : nat) (c : str) (now : Z)
 | Save (sid : nat)
 | SaveFail (sid : nat)   (* a save whose write fails (full disk): nothing is written *)
+| Write (sid : nat)      (* `history -w`: the file is rewritten (truncated) with every item of the session *)
 | NewSession
 | Delete (sid : nat) (off : Z)
 | Clear (sid : nat)
 | ToggleTs.
+
+Definition is_write (o : op) : bool := match o with Write _ => true | _ => false end.
 
 Record world := { file : list str; sessions : list hist; tsflag : bool }.
 
@@ -116,6 +125,11 @@ Definition step (w : world) (o : op) : world :=
       | None => w
       end
   | SaveFail _ => w   (* [flush] returns the error before any item is marked saved *)
+  | Write sid =>
+      match nth_error (sessions w) sid with
+      | Some h => {| file := write_lines (tsflag w) (items h); sessions := sessions w; tsflag := tsflag w |}
+      | None => w
+      end
   | NewSession =>
       {| file := file w; sessions := sessions w ++ [import (file w)]; tsflag := tsflag w |}
   | Delete sid off =>
